@@ -96,19 +96,20 @@ async fn handle(
     hub: SubscriptionHub,
 ) {
     let (read_half, mut write_half) = stream.into_split();
-    let mut reader = BufReader::new(read_half);
-    let mut line = String::new();
+    // `read_line` is not cancellation safe: when the push branch below wins the
+    // `select!`, a partially read request would be dropped with the future.
+    // `Lines::next_line` keeps its partial line across cancellation.
+    let mut lines = BufReader::new(read_half).lines();
     let (push_tx, mut push_rx) = mpsc::channel::<String>(128);
     let mut owned_ids: Vec<String> = Vec::new();
 
     loop {
         tokio::select! {
-            read_res = reader.read_line(&mut line) => {
+            read_res = lines.next_line() => {
                 match read_res {
-                    Ok(0) => break, // EOF
-                    Ok(_) => {
+                    Ok(None) => break, // EOF
+                    Ok(Some(line)) => {
                         let trimmed = line.trim().to_string();
-                        line.clear();
                         if trimmed.is_empty() {
                             continue;
                         }
